@@ -9,7 +9,7 @@
 (*   C07  Eval(lift(ms), w) <=> SatSet(ms, w) # {} for all relevant worlds  *)
 (*   C10  print/parse round trip on miniscripts                            *)
 (***************************************************************************)
-EXTENDS Validation, Json, IOUtils, FiniteSetsExt
+EXTENDS Decoder, Validation, Json, IOUtils, FiniteSetsExt
 
 ASSUME TLCSet(1, ndJsonDeserialize(IOEnv.TRACE))
 Rec == TLCGet(1)
@@ -127,6 +127,16 @@ JudgeEvent(ev) ==
             LET a == ev.decmut.accepted[q] IN
             /\ (a.reenc_same \/ Report("C04", "decoder_accepts_script_it_does_not_reencode", ev, <<a.mut, a.hex>>))
             /\ (~a.known \/ Encode(a.ast, ctx) = a.ops \/ Report("C04", "decoder_accepts_noncanonical_script", ev, <<a.mut, a.hex>>))
+      \* L2 conformance: the decoder automaton of Decoder.tla (checked against Encode by
+      \* MC_Decoder) gives the library's answer on the real encoding and on every accepted mutant
+      /\ (~ev.parse.insane.ok \/
+          \A D \in {DecodeOps(ev.script, ctx)} :
+            (D.ok = ev.dec.ok /\ (~D.ok \/ D.ast = ev.dec.ast))
+            \/ Report("INFO", "drift_l2_decoder", ev, <<D.ok, D.err>>))
+      /\ \A q \in 1..Len(ev.decmut.accepted) :
+            LET a == ev.decmut.accepted[q] IN
+            ~a.known \/ (\A D \in {DecodeOps(a.ops, ctx)} : (D.ok /\ D.ast = a.ast)
+                          \/ Report("INFO", "drift_l2_decoder_mutant", ev, <<a.mut, D.ok, D.err>>))
       \* C07
       /\ (st.b # "B" \/ ~ev.lift.ok \/ ~FewKeys(ev.ast) \/
           \A w \in WorldsOfCtx(ev.ast, ctx) :
